@@ -96,6 +96,8 @@ def fix_deprecated(workpath: Path, fix: bool, cleanup: bool):
                 oldjobpath = jobspath / name / old_identifier
                 newjobpath = jobspath / str(job.__xpmtype__.identifier) / new_identifier
                 newjobpath.parent.mkdir(exist_ok=True)
+                old_name = name.rsplit(".", 1)[-1]
+                new_name = str(job.__xpmtype__.identifier).rsplit(".", 1)[-1]
 
                 # Remove the old symlink if dandling
                 if newjobpath.is_symlink() and not newjobpath.exists():
@@ -125,9 +127,14 @@ def fix_deprecated(workpath: Path, fix: bool, cleanup: bool):
                             json.dump(params, out)
                         tmppath.replace(job_path)
 
-                        # Rename the folder (the experiments follow)
+                        # Rename the folder (the experiments follow). Whenever the
+                        # command is interrupted, the job must be left either as
+                        # it was or completely repaired: once the folder sits under
+                        # its new identifier it is not looked at again. Hence
+                        # everything else is done before the folder is moved, and
+                        # the former experiment links are removed afterwards
+                        link_result_files(oldjobpath, old_name, new_name)
                         xplinks = experiment_links(workpath, oldjobpath)
-                        oldjobpath.rename(newjobpath)
                         for xplink in xplinks:
                             newxplink = (
                                 xplink.parents[1] / newjobpath.parent.name / newjobpath.name
@@ -135,12 +142,10 @@ def fix_deprecated(workpath: Path, fix: bool, cleanup: bool):
                             newxplink.parent.mkdir(exist_ok=True)
                             if not (newxplink.exists() or newxplink.is_symlink()):
                                 newxplink.symlink_to(newjobpath)
+                        oldjobpath.rename(newjobpath)
+                        for xplink in xplinks:
                             xplink.unlink()
                     else:
                         newjobpath.symlink_to(oldjobpath)
 
-                link_result_files(
-                    newjobpath,
-                    name.rsplit(".", 1)[-1],
-                    str(job.__xpmtype__.identifier).rsplit(".", 1)[-1],
-                )
+                link_result_files(newjobpath, old_name, new_name)
